@@ -1122,6 +1122,20 @@ def as_map(v):
                 sub = {t: simp(subst(m[1], {m[0]: e})) for t, m in zip(tg[1], maps)}
                 return (e, simp(subst(v[2], sub)), maps[0][2], tuple(simp(subst(c, sub)) for c in ifs))
             return None
+        if tg is not None and tg[0] == "tuple" and tg[1] and all(t is not None and t[0] == "bv" for t in tg[1]):
+            # `for a, b in S` over any other sequence: a and b are the items of S's element -- the parts of the pair when S is itself a
+            # map that builds pairs (`[(f(r), g(r)) for r in R]`), so the composition is one map over R
+            inner = as_map(it) if it[0] in ("comp", "copy") else None
+            if inner is not None:
+                bv2, body2, base2, ifs2 = inner
+                if body2[0] in ("tuple", "list") and len(body2[1]) == len(tg[1]) and not any(x[0] == "star" for x in body2[1]):
+                    m = dict(zip(tg[1], body2[1]))
+                else:
+                    m = {t: ("item", body2, i) for i, t in enumerate(tg[1])}
+                return (bv2, simp(subst(v[2], m)), base2, tuple(ifs2) + tuple(simp(subst(c, m)) for c in ifs))
+            e = ("bv", "_t", next(_fresh))
+            m = {t: ("item", e, i) for i, t in enumerate(tg[1])}
+            return (e, simp(subst(v[2], m)), it, tuple(simp(subst(c, m)) for c in ifs))
         if tg is None or tg[0] != "bv":
             return None
         if it[0] == "call" and it[1] == ("global", "zip") and not it[3] and it[2]:
@@ -1221,9 +1235,10 @@ def simp(v):
         if isinstance(a, str) and type(b) is int and 0 <= b * len(a) <= 256:
             return ("const", a * b)
     # [f(a, b) for a, b in ((a1, b1), (a2, b2), ..)] over a display of known elements is the display [f(a1, b1), f(a2, b2), ..]
-    if k == "comp" and v[1] == "list" and len(v[3]) == 1 and not v[3][0][2] and v[3][0][1][0] in ("tuple", "list") and 0 < len(v[3][0][1][1]) <= 16 \
-            and not any(e[0] == "star" for e in v[3][0][1][1]):
-        tg, it, _ = v[3][0]
+    # (with filters -- `[c for c in (a, b) if c]`, also as a generator -- when the truth of every filter is visible from the element's shape)
+    if k == "comp" and v[1] in ("list", "gen") and len(v[3]) == 1 and (not v[3][0][2] or v[3][0][0] is not None) and (v[1] == "list" or v[3][0][2]) \
+            and v[3][0][1][0] in ("tuple", "list") and 0 < len(v[3][0][1][1]) <= 16 and not any(e[0] == "star" for e in v[3][0][1][1]):
+        tg, it, ifs_ = v[3][0]
         names = [tg] if tg is not None and tg[0] == "bv" else list(tg[1]) if tg is not None and tg[0] == "tuple" and all(t is not None and t[0] == "bv" for t in tg[1]) else None
         if names is not None:
             out = []
@@ -1235,7 +1250,12 @@ def simp(v):
                 else:
                     out = None
                     break
-                out.append(simp(subst(v[2], m)))
+                keep = [truthy(simp(subst(c_, m))) for c_ in ifs_]
+                if any(t_ is None for t_ in keep):
+                    out = None
+                    break
+                if all(keep):
+                    out.append(simp(subst(v[2], m)))
             if out is not None:
                 return ("list", tuple(out))
     # list + list: one list (operands that are not displays are spliced in as *operand)
@@ -1605,7 +1625,7 @@ def peval(v, assume: dict, as_cond: bool = False):
         return ("phi", c, peval(v[2], assume, as_cond), peval(v[3], assume, as_cond))
     if k == "comp":
         gens = tuple((tg, peval(it, assume), tuple(peval(c, assume, True) for c in ifs)) for tg, it, ifs in v[3])
-        return ("comp", v[1], peval(v[2], assume, as_cond), gens)
+        return simp(("comp", v[1], peval(v[2], assume, as_cond), gens))
     return simp(tuple(peval(x, assume, as_cond) if isinstance(x, tuple) else x for x in v))
 
 
